@@ -32,10 +32,14 @@ Judge(i) ==
     LET e == Trace[i]
         s == Trace[e.prel]
         t == Trace[e.postl]
-        cs == AllClauses(s, e, t)
+        f == IF "finl" \in DOMAIN e THEN Trace[e.finl] ELSE t
+        cs == IF e.ev = "crash" THEN CrashClauses(s, e, t, f)
+              ELSE IF e.ev = "damage" THEN DamageClauses(s, e, t)
+              ELSE IF "fault" \in DOMAIN e THEN FaultClauses(s, e, t, f)
+              ELSE AllClauses(s, e, t)
         hitIdx == {j \in 1..Len(cs) : cs[j].a}
         fails == {k \in hitIdx : ~cs[k].ok}
-        devs == IF fails = {} THEN {} ELSE Devs(s, e, t)
+        devs == IF fails = {} THEN {} ELSE Devs(s, e, t, f)
     IN  /\ \A k \in fails :
               PrintT(ToJson([k |-> "F", i |-> i, c |-> cs[k].n, p |-> cs[k].p,
                              kf |-> {d \in devs : cs[k].n \in Explains(d)}]))
